@@ -33,9 +33,10 @@ let garg_of_tok (t : string) : garg =
   | 's' -> GStr (bytes_of_hex (tail t))
   | 'b' -> GBytes (bytes_of_hex (tail t))
   | 'f' -> GFloat (fnum_of_bits (tail t))
+  | 'B' -> GBig (z_of_string (tail t))
   | _ -> failwith "bad garg"
 
-let ty_char = function TyS -> "s" | TyD -> "d" | TyU -> "u" | TyF -> "f" | TyC -> "c"
+let ty_char = function TyS -> "s" | TyD -> "d" | TyU -> "u" | TyF -> "f" | TyC -> "c" | TyP -> "p"
 
 let handle = function
   | "sprintf" :: c :: f :: args ->
@@ -44,7 +45,8 @@ let handle = function
       res_bytes (print_args ffmt_unmod (bytes_of_hex ofs) (bytes_of_hex ors) (List.map value_of_tok args))
   | ["parse"; f] ->
       (match parse_fmt_types (bytes_of_hex f) with
-       | Ok (g, ts) -> "ok " ^ hex_of_bytes g ^ " " ^ (if ts = [] then "-" else String.concat "" (List.map ty_char ts))
+       | Ok ((g, ts), st) -> "ok " ^ hex_of_bytes g ^ " " ^ (if ts = [] then "-" else String.concat "" (List.map ty_char ts))
+                             ^ " " ^ (if st = [] then "-" else String.concat "," (List.map string_of_z st))
        | Err m -> "err " ^ hex_of_bytes m
        | Panic -> "panic" | Unmod -> "unmod")
   | "gofmt" :: f :: args ->
